@@ -102,7 +102,15 @@ recorded as a finding.
   `_last_sacked_tsn`.  The same rule was later extended to the "declared length lies" chunk stream, whose random
   first four bytes had produced a FORWARD-TSN 2^30 ahead (a lying peer, not a malformed datagram), and to SACKs
   whose cumulative TSN covers chunks the peer has not received (indistinguishable from a genuine SACK: any SCTP
-  sender drops that data for good); such a value is replaced by what the peer really has received.
+  sender drops that data for good); such a value is replaced by what the peer really has received.  A last
+  instance (thorough tier only): a 3-byte FORWARD-TSN value with a declared chunk length of 8 is completed by the
+  padding octet into a cumulative TSN 2^30 ahead; the fairness rule now also covers 1-3 byte values.
+* C13 two-endpoint oracle: eight "close incomplete / datachannel parameters differ" verdicts of the thorough tier
+  were consequences of the recorded finding K4 (a RE-CONFIG was dropped and is never retransmitted; one side
+  keeps the stream registered while the other reuses the id).  They are now attributed to K4 when the run dropped
+  a RE-CONFIG - or when the peer discarded it because it was not established yet (its COOKIE ACK had been lost),
+  which is the same missing retransmission.  The ninth verdict of that run was a genuine defect (close() during
+  the handshake), repaired by a fix commit, see 11.4.
 * Hygiene scan matched `Abort` in another builder's scratch file and files outside the property's
   import closure: restricted to the closure; `Abort` (harmless) removed from the pattern.
 * `setup.sh` built every file under `coq/`, including work in progress of other properties: it
